@@ -1,10 +1,13 @@
 //! actorsim engine. See /verif/DESIGN.md section 2 and /verif/harness/AGENT_GUIDE.md.
+mod c47;
+mod tree;
 
 fn main() {
     let args = kvcore::parse_args();
     match args.prop.as_str() {
+        "C47" => c47::run(args),
         p => {
-            println!("INCONCLUSIVE property={p} reason=actorsim does not serve this property yet");
+            println!("INCONCLUSIVE property={p} reason=actorsim does not serve this property");
             std::process::exit(2);
         }
     }
